@@ -23,8 +23,13 @@ RULE = ("real EVMDownloader.Download + real EVMDriver.Sync against a scripted no
         "never final, +1/+2 per call with lag 0/1/2, creeping finality, failing calls, finalized pointer jumping back, stalled tip); random stream: "
         "chains <= 40 blocks, 0-3 logs per block, chunk in {1,2,3,7,100}, finality lag in {0,1,5,never}, tip advancing 0..10 per call with stalls, "
         "block-finality configs Latest/Finalized, Finalized/Finalized, Latest/Latest, Latest/Safe, Safe/Finalized, restart in mid-chain, "
-        "channel buffer 0/1/3/100; separate streams: transient failures of every RPC, ProcessBlock, AddBlockToTrack and the appender (err), "
-        "non-monotone answers (jitter), node behind the store (regress: model-vs-code only, outside hypothesis H1). "
+        "channel buffer 0/1/3/100; every numbered RPC call (eth_getLogs, header by number) has a scripted outcome: ok, generic error, error wrapping "
+        "context.DeadlineExceeded, NotFound, error wrapping context.Canceled with the caller's context alive, header answered with another "
+        "hash; exhaustive chains x chunks x 2 schedules are re-run with 4 outcome scripts (timeout of the first eth_getLogs, retried failures of "
+        "every kind, hash mismatch on the 2nd event block of a range, mismatch on 1st then 2nd); separate streams: transient failures of every "
+        "RPC incl. the block-tag calls in all three flavours, ProcessBlock, AddBlockToTrack and the appender (err), 1-5 hash mismatches on "
+        "the 1st/2nd/3rd event block of a range (mismatch), non-monotone answers (jitter), and model-vs-code only: node behind the store "
+        "(regress, outside H1), 6+ mismatches in a row (giveup) and context.Canceled with a live context (cancel), both outside H3. "
         "A case is non-trivial when the real downloader delivered at least one block with events and made at least two eth_getLogs range "
         "queries; distinct = distinct input")
 ASSUMPTIONS = ["static growing chain: block contents never change (reorgs are C06); eth_getLogs answers in chain order with the logs of the "
@@ -32,8 +37,11 @@ ASSUMPTIONS = ["static growing chain: block contents never change (reorgs are C0
                "(H1) the node's tip is never more than one block behind the block the download starts from; otherwise the real code moves its "
                "cursor and the store marker backwards (Example C05_tip_behind_store_moves_cursor_backwards, replayed in stream 'regress')",
                "(H2) cursor arithmetic stays below 2^64: tip bound + 1 + (polls + 1) * chunk < 2^64",
-               "partial: block-hash-mismatch retry of getEventsByBlockRangeWithRetry, RetryHandler sleeps/Fatalf, goroutine scheduling and "
-               "channel hand-over are exercised by the harness only"]
+               "(H3) no numbered RPC call fails with an error wrapping context.Canceled while the downloader's context is alive, and at most "
+               "MaxRetryCountBlockHashMismatch (5) header answers carry a hash different from the logs' block hash; otherwise the real code "
+               "treats the nil result as 'no logs' and the marker passes undelivered event blocks (Examples C05_canceled_getlogs_loses_events, "
+               "C05_hash_mismatch_giveup_loses_events; replayed in streams 'cancel' and 'giveup')",
+               "partial: RetryHandler sleeps/Fatalf, goroutine scheduling and channel hand-over are exercised by the harness only"]
 HARNESS_TIMEOUT = 1500
 
 
@@ -63,12 +71,32 @@ def coq_case(o):
         n(i["chunk"]), lst(n(a) for a in i["addrs"]), lst(n(t) for t in i["topics"]), cbool(finflag(i["mode"])))
     chain = lst(lst("mkL %s %s %s %s" % (n(l["a"]), n(l["t"]), cbool(l["r"]), n(k)) for k, l in enumerate(b)) for b in i["chain"])
     ticks = lst("mkT %s %s %s" % (n(t["tip"]), n(t["fin"]), cbool(t["err"])) for t in i["ticks"])
+    calls = lst(CRES[c] for c in (i.get("calls") or []))
     chan = lst("mkB %s %s %s" % (n(b["num"]), evs(b["events"]), cbool(b["fin"])) for b in (o.get("chan") or []))
     proc = lst("(%s, %s)" % (n(b["num"]), evs(b["events"])) for b in (o.get("proc") or []))
-    return ("{| k_cfg := %s; k_chain := %s; k_lp0 := %s; k_ticks := %s; o_chan := %s; o_proc := %s; o_tracked := %s; o_lp := %s; "
+    return ("{| k_cfg := %s; k_chain := %s; k_lp0 := %s; k_ticks := %s; k_calls := %s; o_chan := %s; o_proc := %s; o_tracked := %s; o_lp := %s; "
             "o_queries := %s; o_done := %s |}" % (
-                cfg, chain, n(i["lp0"]), ticks, chan, proc, lst(n(x) for x in (o.get("tracked") or [])), n(o.get("lp", 0)),
+                cfg, chain, n(i["lp0"]), ticks, calls, chan, proc, lst(n(x) for x in (o.get("tracked") or [])), n(o.get("lp", 0)),
                 lst("(%s, %s)" % (n(q[0]), n(q[1])) for q in (o.get("queries") or [])), cbool(o.get("done", False))))
+
+
+CRES = {"ok": "ROk", "err": "RErr", "deadline": "RDeadline", "notfound": "RNotFound", "canceled": "RCanceled", "mismatch": "RMismatch"}
+
+
+def outside_h3(i):
+    c = i.get("calls") or []
+    return "canceled" in c or c.count("mismatch") > 5
+
+
+def events_lost(o):
+    """an event block at or below the store marker that was never handed over (judged only inside the hypotheses)"""
+    i = o["in"]
+    got = {b["num"] for b in (o.get("proc") or [])}
+    for k, logs in enumerate(i["chain"]):
+        if i["lp0"] < k <= o.get("lp", 0) and k not in got:
+            if any((not l["r"]) and l["t"] in i["topics"] and (not i["addrs"] or l["a"] in i["addrs"]) for l in logs):
+                return True
+    return False
 
 
 def regressed(i):
@@ -89,7 +117,9 @@ def finding_key(o):
 def distribution(outs):
     d = {"kind": {}, "mode": {}, "chunk": {}, "blocks_delivered": 0, "event_blocks_delivered": 0, "empty_block_markers": 0,
          "unfinalized_deliveries_tracked": 0, "toBlock_extensions": 0, "cases_with_rpc_failures": 0, "not_done": 0,
-         "outside_H1_tip_behind_store": 0, "outside_H1_block_at_or_below_store_marker_delivered": 0, "max_chain": 0, "max_ticks": 0}
+         "outside_H1_tip_behind_store": 0, "outside_H1_block_at_or_below_store_marker_delivered": 0,
+         "numbered_call_outcomes": {}, "outside_H3_canceled_or_6_mismatches": 0, "outside_H3_event_block_lost": 0,
+         "getlogs_ranges_asked_again_after_hash_mismatch": 0, "max_chain": 0, "max_ticks": 0}
     for o in outs:
         i = o["in"]
         for k, v in (("kind", i["kind"]), ("mode", i["mode"]), ("chunk", str(i["chunk"]))):
@@ -101,7 +131,14 @@ def distribution(outs):
         d["unfinalized_deliveries_tracked"] += len(o.get("tracked") or [])
         q = o.get("queries") or []
         d["toBlock_extensions"] += sum(1 for a, b in zip(q, q[1:]) if a[0] == b[0] and b[1] > a[1])
-        if any(t["err"] for t in i["ticks"]) or i["rpc_err"] or i["proc_err"] or i["track_err"] or i["app_err"]:
+        for c in (i.get("calls") or []):
+            d["numbered_call_outcomes"][c] = d["numbered_call_outcomes"].get(c, 0) + 1
+        d["getlogs_ranges_asked_again_after_hash_mismatch"] += sum(1 for a, b in zip(q, q[1:]) if a == b)
+        if outside_h3(i):
+            d["outside_H3_canceled_or_6_mismatches"] += 1
+            if events_lost(o):
+                d["outside_H3_event_block_lost"] += 1
+        if any(t["err"] for t in i["ticks"]) or any(c != "ok" for c in (i.get("calls") or [])) or i["proc_err"] or i["track_err"] or i["app_err"]:
             d["cases_with_rpc_failures"] += 1
         if not o.get("done"):
             d["not_done"] += 1
